@@ -19,8 +19,17 @@ APPLY_OP_TO_UNIT = (
     "cbrt",
 )
 # Operations where an operand without a unit is a dimensionless quantity, as for
-# the + and - operators
-STRICT_UNIT_OPS = ("add", "subtract")
+# the + and - operators and for the comparison operators
+STRICT_UNIT_OPS = (
+    "add",
+    "subtract",
+    "less",
+    "less_equal",
+    "greater",
+    "greater_equal",
+    "equal",
+    "not_equal",
+)
 # Keyword arguments that are operands in the unit of the first operand (bounds, values
 # to insert, starting values), as opposed to options (axis=...) and to operands with
 # a unit of their own (weights=...)
@@ -282,7 +291,9 @@ class Array(Base):
             return type(arg)(self._to_unit(a, unit, strict) for a in arg)
         if isinstance(arg, Quantity) or (strict and not isinstance(arg, Base)):
             arg = self.__class__(arg)
-        if isinstance(arg, self.__class__) and arg.dtype != bool:
+        # Boolean Arrays are masks (e.g. the condition of `where`), except in strict
+        # operations, where they are dimensionless numbers like any other
+        if isinstance(arg, self.__class__) and (strict or arg.dtype != bool):
             return arg.to(unit)
         return arg
 
